@@ -42,7 +42,7 @@ Fixpoint first_diff (add : Z -> Z -> Z) (st : state) (prev : list val) (steps : 
   end.
 
 Definition case_init (c : ccase) : state := init_state (cdb c) (cvars c) (cprep c).
-Definition model_diff (c : ccase) : N := first_diff add64 (case_init c) (cvars c) (csteps c) 1.
+Definition model_diff (c : ccase) : N := first_diff Z.add (case_init c) (cvars c) (csteps c) 1.
 Definition spec_diff (c : ccase) : N := first_diff Z.add (case_init c) (cvars c) (csteps c) 1.
 
 (* kind 1 = the model (the code as read) and the implementation differ; kind 2 = the
@@ -59,4 +59,4 @@ Fixpoint model_trace (add : Z -> Z -> Z) (st : state) (steps : list (op * obs)) 
   | (o, _) :: steps' => let '(st', r) := step add FUEL st o in (r, vars st') :: model_trace add st' steps'
   end.
 Definition expected_case (c : ccase) :=
-  (cid c, model_diff c, spec_diff c, model_trace add64 (case_init c) (csteps c)).
+  (cid c, model_diff c, spec_diff c, model_trace Z.add (case_init c) (csteps c)).
